@@ -1044,6 +1044,23 @@ class Engine(object):
                         return [(st, (k[1] == b_[1]) == pol)]
                     if k[0] == "notin" and b_[1] in k[1]:
                         return [(st, (False) == pol)]
+        if t[0] == "cmp" and t[1] == "eq":
+            # `x == Status::Passed` after `x == Status::Rejected` was decided true is not a fresh decision (and vice versa)
+            for a_, b_ in ((t[2], t[3]), (t[3], t[2])):
+                if b_[0] == "variant" and not b_[3] and a_[0] != "variant":
+                    known = st.refine.get(("eqv", a_))
+                    if known is not None:
+                        return [(st, (known == (b_[1], b_[2])) == pol)]
+                    if (b_[1], b_[2]) in st.refine.get(("nev", a_), ()):
+                        return [(st, False == pol)]
+                    s2 = st.copy()
+                    st.refine[t] = True
+                    st.refine[("eqv", a_)] = (b_[1], b_[2])
+                    st.conds.append((t, True, site, len(st.effects)))
+                    s2.refine[t] = False
+                    s2.refine[("nev", a_)] = tuple(s2.refine.get(("nev", a_), ())) + ((b_[1], b_[2]),)
+                    s2.conds.append((t, False, site, len(s2.effects)))
+                    return [(st, pol), (s2, not pol)]
         if t[0] == "is":
             # x.is_some() / x.is_ok() used as a branch condition is the same decision as `match x`: record it on x
             base, pos = t[1], t[2]
